@@ -1,6 +1,29 @@
 /-
-  C13, fifth part — the triangles built by EAR CLIPPING carry the coordinates of the vertex-list triangles
-  (header completed below).
+  C13, fifth part — the triangles built by EAR CLIPPING carry the coordinates of the vertex-list triangles.
+
+  C13.lean proves the area sum and the orientation of the clipped ears for the vertex-list computation
+  `earclipTriangles` (the kernel's `vertices` vector with its ear search and `remove`); C13c.lean proves the exact β
+  structure of the result (`earTris`: n-2 closed dart triangles, computed with the kernel's `darts` vector).  This file
+  ties the two IN THE RESULT MAP, with `pos m d := m.att 0 (vertex_id d)` and the value calculus of
+  Lemmas/PosCalc.lean (`unsew1_pos`, `sew1_pos`, and — new — `twoSewBoth_pos` for the 2-sew of two darts with successors):
+
+  * `earIter_pos`     : one iteration (`unsew1 rl; unsew1 y; sew1 y nd1; sew1 nd1 x; sew1 rl nd2; sew1 nd2 r0; sew2 nd1 nd2`)
+                        on `rl → x → y → r0` with fresh `nd1`, `nd2`: every other dart keeps `pos`, `nd1` gets the coordinates
+                        of `r0`, `nd2` those of `x`.  A fresh dart stays alone and valueless until a sew gives it a β2
+                        neighbour's vertex (`sewFresh_pos`) or the final 2-sew merges it with the end point (`merge` with an
+                        undefined side, or `avg v v = v`).  The 2-sew needs its two end points `x`, `r0` to be different
+                        vertices: they carry different coordinates because the ear test rejected `cross = 0`;
+  * `earclipLoop_pos` : the invariant "the `darts` vector is the current face in cyclic order AND `darts[i]` carries
+                        `vertices[i]`" through the loop (with `EarsNotLast`, as in C13c);
+  * `C13_earclip_triangles_carry_list_coordinates`, `C13_earclip_area_conserved_in_map`,
+    `C13_earclip_orientation_in_map` (+ `_ccw_` / `_cw_` for the two public kernels),
+    `C13_earclip_old_vertices_keep_coordinates`.
+
+  Hypotheses beyond C13c: fresh spare darts (free, valueless), `cfg.law 0 = avgLaw`, `m.fc = 0`, and an orientation test
+  that rejects triples with equal end points (true of `insideCCW` and `insideCW`).
+
+  About the LAST triangle (the three vertices left at the end): the code does not test it.  What is proved is its
+  doubled area — the polygon's minus the ears' — nothing about its sign.
 -/
 import Honeycomb.Props.C13d
 
@@ -61,5 +84,936 @@ theorem sewFresh_pos (cfg : Cfg Val) (hlaw : cfg.law 0 = avgLaw) {l e : Nat} {m 
       · exact keep d hd hc (fun c => hde (hsg d (SameCell.symm c)))
     · intro z hze hbz hs y hy
       exact singleton_united hs hbz (fun hh => hze hh.symm) y ((cells z y).1 hy)
+
+/-! ## one iteration of the ear-clipping loop -/
+
+/-- the seven sews of one iteration — `unsew1 rl; unsew1 y; sew1 y nd1; sew1 nd1 x; sew1 rl nd2; sew1 nd2 r0;
+    sew2 nd1 nd2` — on a face `rl → x → y → r0` with fresh spare darts `nd1`, `nd2`, when the two end points `x`, `r0`
+    of the cut carry different coordinates: every other dart keeps its coordinates, `nd1` gets those of `r0`, `nd2` those
+    of `x` -/
+theorem earIter_pos (cfg : Cfg Val) (hlaw : cfg.law 0 = avgLaw) {x y r0 rl nd1 nd2 : Nat}
+    {m m1 m2 m3 m4 m5 m6 m7 : Map Val} (hi : Inv n u m) (hfc : m.fc = 0)
+    (lx : Live n u x) (ly : Live n u y) (lr0 : Live n u r0) (lrl : Live n u rl) (l1 : Live n u nd1) (l2 : Live n u nd2)
+    (cyr : m.β 1 y = r0) (clx : m.β 1 rl = x) (hyl : y ≠ rl)
+    (h12 : nd1 ≠ nd2) (hn1 : nd1 ≠ x ∧ nd1 ≠ y ∧ nd1 ≠ r0 ∧ nd1 ≠ rl) (hn2 : nd2 ≠ x ∧ nd2 ≠ y ∧ nd2 ≠ r0 ∧ nd2 ≠ rl)
+    (hf1 : ∀ i, i < 3 → m.β i nd1 = 0) (hf2 : ∀ i, i < 3 → m.β i nd2 = 0)
+    (hp1 : pos m nd1 = none) (hp2 : pos m nd2 = none) (hpx : pos m x ≠ pos m r0)
+    (s1 : run (oneUnsew2 cfg n rl) m = (.ok (), m1)) (s2 : run (oneUnsew2 cfg n y) m1 = (.ok (), m2))
+    (s3 : run (oneSew2 cfg n y nd1) m2 = (.ok (), m3)) (s4 : run (oneSew2 cfg n nd1 x) m3 = (.ok (), m4))
+    (s5 : run (oneSew2 cfg n rl nd2) m4 = (.ok (), m5)) (s6 : run (oneSew2 cfg n nd2 r0) m5 = (.ok (), m6))
+    (s7 : run (twoSew2 cfg n nd1 nd2) m6 = (.ok (), m7)) :
+    Inv n u m7 ∧ m7.fc = 0 ∧
+    (∀ d, Valid m d → d ≠ nd1 → d ≠ nd2 → pos m7 d = pos m d) ∧
+    pos m7 nd1 = pos m r0 ∧ pos m7 nd2 = pos m x ∧
+    (∀ e, e ≠ x → e ≠ y → e ≠ r0 → e ≠ rl → e ≠ nd1 → e ≠ nd2 → ∀ i, m7.β i e = m.β i e) := by
+  have hwf := hi.wf
+  have vx := valid_of_live hi lx
+  have vy := valid_of_live hi ly
+  have vr0 := valid_of_live hi lr0
+  have vrl := valid_of_live hi lrl
+  have v1 := valid_of_live hi l1
+  have v2 := valid_of_live hi l2
+  -- the two unsews
+  obtain ⟨i1, _, _, e1⟩ := oneUnsew2_eff cfg n hi s1
+  rw [clx] at e1
+  obtain ⟨⟨_, fc1⟩, pA, _⟩ := unsew1_pos cfg hlaw hi hfc s1
+  have hfc1 : m1.fc = 0 := by rw [fc1]; exact hfc
+  obtain ⟨i2, _, _, e2⟩ := oneUnsew2_eff cfg n i1 s2
+  have hm1y : m1.β 1 y = r0 := by
+    rw [e1, if_neg (fun hh => absurd hh.1 (by decide)), if_neg (fun hh => hyl hh.2.symm), cyr]
+  rw [hm1y] at e2
+  obtain ⟨⟨_, fc2⟩, pB, _⟩ := unsew1_pos cfg hlaw i1 hfc1 s2
+  have hfc2 : m2.fc = 0 := by rw [fc2]; exact hfc1
+  have pAB : ∀ d, Valid m d → pos m2 d = pos m d := fun d hd => by rw [pB d (valid_trans hi i1 hd), pA d hd]
+  have b2_2 : ∀ z, m2.β 2 z = m.β 2 z := by
+    intro z; rw [e2, e1]
+    simp only [show ¬ (0 = 2) by decide, show ¬ (1 = 2) by decide, false_and, if_false]
+  have hf1' : ∀ i, i < 3 → m2.β i nd1 = 0 := by
+    intro i hi3
+    rw [e2, if_neg (fun hh => hn1.2.2.1 hh.2.symm), if_neg (fun hh => hn1.2.1 hh.2.symm), e1,
+      if_neg (fun hh => hn1.1 hh.2.symm), if_neg (fun hh => hn1.2.2.2 hh.2.symm)]
+    exact hf1 i hi3
+  have hf2' : ∀ i, i < 3 → m2.β i nd2 = 0 := by
+    intro i hi3
+    rw [e2, if_neg (fun hh => hn2.2.2.1 hh.2.symm), if_neg (fun hh => hn2.2.1 hh.2.symm), e1,
+      if_neg (fun hh => hn2.1 hh.2.symm), if_neg (fun hh => hn2.2.2.2 hh.2.symm)]
+    exact hf2 i hi3
+  have sg1 : ∀ z, VC m2 nd1 z → z = nd1 := free_singleton i2.wf (valid_trans hi i2 v1) hf1'
+  have sg2 : ∀ z, VC m2 nd2 z → z = nd2 := free_singleton i2.wf (valid_trans hi i2 v2) hf2'
+  -- the neighbours across `y` and `rl` start at `r0` and `x`
+  have nbY : m.β 2 y ≠ 0 → Valid m (m.β 2 y) ∧ pos m (m.β 2 y) = pos m r0 ∧ m.β 2 y ≠ nd1 ∧ m.β 2 y ≠ nd2 := by
+    intro hnb
+    have hnbv : Valid m (m.β 2 y) := ⟨hnb, hwf.range 2 (by omega) y vy.2⟩
+    have hinv := hwf.invol 2 (by omega) (by omega) y vy.2 hnb
+    have hstep : VC m (m.β 2 y) r0 := by
+      refine SameCell.step ⟨hnb, hnbv.2, lr0.1, ?_⟩
+      simp only [g2, List.mem_cons]
+      left; rw [hinv.1, cyr]
+    exact ⟨hnbv, pos_eq_of_VC hwf hnbv vr0 hstep, nb_ne_free hwf vy l1.1 (hf1 2 (by omega)),
+      nb_ne_free hwf vy l2.1 (hf2 2 (by omega))⟩
+  have nbL : m.β 2 rl ≠ 0 → Valid m (m.β 2 rl) ∧ pos m (m.β 2 rl) = pos m x ∧ m.β 2 rl ≠ nd1 ∧ m.β 2 rl ≠ nd2 := by
+    intro hnb
+    have hnbv : Valid m (m.β 2 rl) := ⟨hnb, hwf.range 2 (by omega) rl vrl.2⟩
+    have hinv := hwf.invol 2 (by omega) (by omega) rl vrl.2 hnb
+    have hstep : VC m (m.β 2 rl) x := by
+      refine SameCell.step ⟨hnb, hnbv.2, lx.1, ?_⟩
+      simp only [g2, List.mem_cons]
+      left; rw [hinv.1, clx]
+    exact ⟨hnbv, pos_eq_of_VC hwf hnbv vx hstep, nb_ne_free hwf vrl l1.1 (hf1 2 (by omega)),
+      nb_ne_free hwf vrl l2.1 (hf2 2 (by omega))⟩
+  -- op 3: sew1 y nd1
+  obtain ⟨i3, _, _, e3⟩ := oneSew2_eff cfg n i2 ly l1 s3
+  obtain ⟨_, hfc3, kC, stC, sglC⟩ := sewFresh_pos cfg hlaw i2 hfc2 ly l1 sg1
+    (by rw [pAB nd1 v1]; exact hp1) s3
+  rw [b2_2] at stC sglC
+  have b2_3 : ∀ z, m3.β 2 z = m.β 2 z := by
+    intro z; rw [e3, b2_2]
+    simp only [show ¬ (0 = 2) by decide, show ¬ (1 = 2) by decide, false_and, if_false]
+  have sg2c : ∀ z, VC m3 nd2 z → z = nd2 :=
+    sglC nd2 (fun hh => h12 hh.symm) (nb_ne_free hwf vy l2.1 (hf2 2 (by omega))) sg2
+  -- op 4: sew1 nd1 x
+  obtain ⟨i4, _, _, e4⟩ := oneSew2_eff cfg n i3 l1 lx s4
+  obtain ⟨_, hfc4, kD, cD⟩ := sewNoNb_pos cfg hlaw i3 hfc3 l1 lx (by rw [b2_3]; exact hf1 2 (by omega)) s4
+  have b2_4 : ∀ z, m4.β 2 z = m.β 2 z := by
+    intro z; rw [e4, b2_3]
+    simp only [show ¬ (0 = 2) by decide, show ¬ (1 = 2) by decide, false_and, if_false]
+  have sg2d : ∀ z, VC m4 nd2 z → z = nd2 := fun z hz => sg2c z ((cD nd2 z).1 hz)
+  have p24 : ∀ d, Valid m d → d ≠ nd1 → pos m4 d = pos m d := fun d hd hne => by
+    rw [kD d (valid_trans hi i3 hd), kC d (valid_trans hi i2 hd) hne, pAB d hd]
+  -- op 5: sew1 rl nd2
+  obtain ⟨i5, _, _, e5⟩ := oneSew2_eff cfg n i4 lrl l2 s5
+  obtain ⟨_, hfc5, kE, stE, sglE⟩ := sewFresh_pos cfg hlaw i4 hfc4 lrl l2 sg2d
+    (by rw [p24 nd2 v2 (fun hh => h12 hh.symm)]; exact hp2) s5
+  rw [b2_4] at stE sglE
+  have b2_5 : ∀ z, m5.β 2 z = m.β 2 z := by
+    intro z; rw [e5, b2_4]
+    simp only [show ¬ (0 = 2) by decide, show ¬ (1 = 2) by decide, false_and, if_false]
+  -- op 6: sew1 nd2 r0
+  obtain ⟨i6, _, _, e6⟩ := oneSew2_eff cfg n i5 l2 lr0 s6
+  obtain ⟨_, hfc6, kF, cF⟩ := sewNoNb_pos cfg hlaw i5 hfc5 l2 lr0 (by rw [b2_5]; exact hf2 2 (by omega)) s6
+  -- the state before the 2-sew
+  have p46 : ∀ d, Valid m d → d ≠ nd2 → pos m6 d = pos m4 d := fun d hd hne => by
+    rw [kF d (valid_trans hi i5 hd), kE d (valid_trans hi i4 hd) hne]
+  have p6 : ∀ d, Valid m d → d ≠ nd1 → d ≠ nd2 → pos m6 d = pos m d := fun d hd h1 h2 => by
+    rw [p46 d hd h2, p24 d hd h1]
+  have st1 : (∀ z, VC m6 nd1 z → z = nd1) ∧ pos m6 nd1 = none ∨ pos m6 nd1 = pos m r0 := by
+    rcases stC with ⟨hb, sg, pn⟩ | ⟨hb, pv⟩
+    · left
+      have sg4 : ∀ z, VC m4 nd1 z → z = nd1 := fun z hz => sg z ((cD nd1 z).1 hz)
+      have sg5 : ∀ z, VC m5 nd1 z → z = nd1 := sglE nd1 h12 (nb_ne_free hwf vrl l1.1 (hf1 2 (by omega))) sg4
+      refine ⟨fun z hz => sg5 z ((cF nd1 z).1 hz), ?_⟩
+      rw [p46 nd1 v1 h12, kD nd1 (valid_trans hi i3 v1)]; exact pn
+    · right
+      obtain ⟨hv, hp, _, _⟩ := nbY hb
+      rw [p46 nd1 v1 h12, kD nd1 (valid_trans hi i3 v1), pv, pAB _ hv, hp]
+  have st2 : (∀ z, VC m6 nd2 z → z = nd2) ∧ pos m6 nd2 = none ∨ pos m6 nd2 = pos m x := by
+    rcases stE with ⟨hb, sg, pn⟩ | ⟨hb, pv⟩
+    · left
+      refine ⟨fun z hz => sg z ((cF nd2 z).1 hz), ?_⟩
+      rw [kF nd2 (valid_trans hi i5 v2)]; exact pn
+    · right
+      obtain ⟨hv, hp, hne1, _⟩ := nbL hb
+      rw [kF nd2 (valid_trans hi i5 v2), pv, p24 _ hv hne1, hp]
+  have hb1n1 : m6.β 1 nd1 = x := by
+    rw [e6, if_neg (fun hh => absurd hh.1 (by decide)), if_neg (fun hh => h12 hh.2.symm), e5,
+      if_neg (fun hh => absurd hh.1 (by decide)), if_neg (fun hh => hn1.2.2.2 hh.2.symm), e4,
+      if_neg (fun hh => absurd hh.1 (by decide)), if_pos ⟨rfl, rfl⟩]
+  have hb1n2 : m6.β 1 nd2 = r0 := by
+    rw [e6, if_neg (fun hh => absurd hh.1 (by decide)), if_pos ⟨rfl, rfl⟩]
+  have px6 : pos m6 x = pos m x := p6 x vx (fun hh => hn1.1 hh.symm) (fun hh => hn2.1 hh.symm)
+  have pr6 : pos m6 r0 = pos m r0 := p6 r0 vr0 (fun hh => hn1.2.2.1 hh.symm) (fun hh => hn2.2.2.1 hh.symm)
+  have w1 := valid_trans hi i6 v1
+  have w2 := valid_trans hi i6 v2
+  have wx := valid_trans hi i6 vx
+  have wr := valid_trans hi i6 vr0
+  have hpx' : pos m r0 ≠ pos m x := fun hh => hpx hh.symm
+  -- the four separations
+  have q4 : ¬ VC m6 r0 x := fun c => hpx' (by rw [← pr6, ← px6]; exact pos_eq_of_VC i6.wf wr wx c)
+  have q2 : ¬ VC m6 nd1 x := by
+    intro c
+    rcases st1 with ⟨sg, _⟩ | pv
+    · exact hn1.1 (sg x c).symm
+    · exact hpx' (by rw [← pv, ← px6]; exact pos_eq_of_VC i6.wf w1 wx c)
+  have q3 : ¬ VC m6 r0 nd2 := by
+    intro c
+    rcases st2 with ⟨sg, _⟩ | pv
+    · exact hn2.2.2.1 (sg r0 (SameCell.symm c)).symm
+    · exact hpx' (by rw [← pv, ← pr6]; exact pos_eq_of_VC i6.wf wr w2 c)
+  have q1 : ¬ VC m6 nd1 nd2 := by
+    intro c
+    rcases st1 with ⟨sg, _⟩ | pv
+    · exact h12 (sg nd2 c).symm
+    · rcases st2 with ⟨sg, _⟩ | pv2
+      · exact h12 (sg nd1 (SameCell.symm c))
+      · exact hpx' (by rw [← pv, ← pv2]; exact pos_eq_of_VC i6.wf w1 w2 c)
+  -- op 7
+  obtain ⟨i7, _, _, e7⟩ := twoSew2_eff cfg n i6 l1 l2 h12 s7
+  obtain ⟨⟨_, fc7⟩, keep, mAB, mCD⟩ := twoSewBoth_pos cfg hlaw i6 hfc6 l1 l2 h12
+    (by rw [hb1n1]; exact lx.1) (by rw [hb1n2]; exact lr0.1) q1 (by rw [hb1n1]; exact q2) (by rw [hb1n2]; exact q3)
+    (by rw [hb1n1, hb1n2]; exact q4) s7
+  rw [hb1n1, hb1n2] at keep
+  rw [hb1n2] at mAB
+  rw [hb1n1] at mCD
+  have vAB : (pos m6 nd1).or (pos m6 r0) = pos m r0 := by
+    rcases st1 with ⟨_, pn⟩ | pv
+    · rw [pn, pr6]; rfl
+    · rw [pv, pr6, or_self']
+  have vCD : (pos m6 x).or (pos m6 nd2) = pos m x := by
+    rcases st2 with ⟨_, pn⟩ | pv
+    · rw [pn, px6]; cases pos m x <;> rfl
+    · rw [pv, px6, or_self']
+  have mAB' := mAB (by
+    intro a b ha hb
+    rcases st1 with ⟨_, pn⟩ | pv
+    · rw [pn] at ha; exact absurd ha (by simp)
+    · rw [pv, ← pr6, hb] at ha; exact (Option.some.inj ha).symm)
+  have mCD' := mCD (by
+    intro a b ha hb
+    rcases st2 with ⟨_, pn⟩ | pv
+    · rw [pn] at hb; exact absurd hb (by simp)
+    · rw [pv, ← px6, ha] at hb; exact Option.some.inj hb)
+  rw [vAB] at mAB'
+  rw [vCD] at mCD'
+  refine ⟨i7, by rw [fc7]; exact hfc6, ?_, ?_, ?_, ?_⟩
+  · intro d hd h1 h2
+    have wd := valid_trans hi i6 hd
+    rw [← p6 d hd h1 h2]
+    by_cases cAB : VC m6 d nd1 ∨ VC m6 d r0
+    · rw [mAB' d wd cAB]
+      rcases cAB with c | c
+      · rcases st1 with ⟨sg, _⟩ | pv
+        · exact absurd (sg d (SameCell.symm c)) h1
+        · rw [pos_eq_of_VC i6.wf wd w1 c, pv]
+      · rw [pos_eq_of_VC i6.wf wd wr c, pr6]
+    · by_cases cCD : VC m6 d x ∨ VC m6 d nd2
+      · rw [mCD' d wd cCD]
+        rcases cCD with c | c
+        · rw [pos_eq_of_VC i6.wf wd wx c, px6]
+        · rcases st2 with ⟨sg, _⟩ | pv
+          · exact absurd (sg d (SameCell.symm c)) h2
+          · rw [pos_eq_of_VC i6.wf wd w2 c, pv]
+      · exact keep d wd (fun c => cAB (Or.inl c)) (fun c => cAB (Or.inr c)) (fun c => cCD (Or.inl c))
+          (fun c => cCD (Or.inr c))
+  · exact mAB' nd1 w1 (Or.inl (.refl _))
+  · exact mCD' nd2 w2 (Or.inr (.refl _))
+  · intro e hx hy hr hl h1 h2 i
+    rw [e7, if_neg (fun hh => h2 hh.2.symm), if_neg (fun hh => h1 hh.2.symm), e6, if_neg (fun hh => hr hh.2.symm),
+      if_neg (fun hh => h2 hh.2.symm), e5, if_neg (fun hh => h2 hh.2.symm), if_neg (fun hh => hl hh.2.symm), e4,
+      if_neg (fun hh => hx hh.2.symm), if_neg (fun hh => h1 hh.2.symm), e3, if_neg (fun hh => h1 hh.2.symm),
+      if_neg (fun hh => hy hh.2.symm), e2, if_neg (fun hh => hr hh.2.symm), if_neg (fun hh => hy hh.2.symm), e1,
+      if_neg (fun hh => hx hh.2.symm), if_neg (fun hh => hl hh.2.symm)]
+
+/-! ## the loop -/
+
+/-- the 2D point carried by the origin of a dart -/
+def p2pos (m : Map Val) (d : Nat) : Option P2 := (pos m d).map Val.p2
+
+theorem triP2_of_p2pos {m : Map Val} {a b c : Nat} {pa pb pc : P2} (ha : p2pos m a = some pa)
+    (hb : p2pos m b = some pb) (hc : p2pos m c = some pc) : triP2 m (a, b, c) = some (pa, pb, pc) := by
+  unfold p2pos at ha hb hc
+  unfold triP2
+  cases h1 : pos m a with
+  | none => rw [h1] at ha; simp at ha
+  | some va =>
+    cases h2 : pos m b with
+    | none => rw [h2] at hb; simp at hb
+    | some vb =>
+      cases h3 : pos m c with
+      | none => rw [h3] at hc; simp at hc
+      | some vc =>
+        rw [h1] at ha; rw [h2] at hb; rw [h3] at hc
+        simp only [Option.map_some, Option.some.injEq] at ha hb hc
+        simp only [ha, hb, hc]
+
+/-- the vertex list split like the dart vector -/
+theorem split_values {f : Nat → Option P2} {A B : List Nat} {x y : Nat} {vs : List P2}
+    (h : (A ++ x :: y :: B).map f = vs.map some) :
+    ∃ VA vx vy VB, vs = VA ++ vx :: vy :: VB ∧ A.map f = VA.map some ∧ f x = some vx ∧ f y = some vy ∧
+      B.map f = VB.map some := by
+  simp only [List.map_append, List.map_cons] at h
+  obtain ⟨VA, Vr, hvs, hA, hr⟩ := List.map_eq_append_iff.1 h.symm
+  obtain ⟨vx, Vr', hvr, hx, hr'⟩ := List.map_eq_cons_iff.1 hr
+  obtain ⟨vy, VB, hvr', hy, hB⟩ := List.map_eq_cons_iff.1 hr'
+  exact ⟨VA, vx, vy, VB, by rw [hvs, hvr, hvr'], hA.symm, hx.symm, hy.symm, hB.symm⟩
+
+theorem getD_ear2 (VA VB : List P2) (vx vy vr : P2) (VRt : List P2) (h : VB ++ VA = vr :: VRt) :
+    (VA ++ vx :: vy :: VB).getD ((VA.length + 2) % (VA ++ vx :: vy :: VB).length) default = vr := by
+  cases VB with
+  | nil =>
+      simp only [List.nil_append] at h
+      subst h
+      have : ((vr :: VRt) ++ [vx, vy]).length = (vr :: VRt).length + 2 := by simp
+      rw [this, Nat.mod_self]
+      simp
+  | cons vb VB' =>
+      simp only [List.cons_append, List.cons.injEq] at h
+      rw [Nat.mod_eq_of_lt (by simp)]
+      have e : VA ++ vx :: vy :: vb :: VB' = (VA ++ [vx, vy]) ++ vb :: VB' := by simp
+      rw [e, List.getD_eq_getElem?_getD, List.getElem?_append_right (by simp)]
+      simp [h.1]
+
+theorem map_length_eq {α β γ : Type} {f : α → γ} {g : β → γ} {l : List α} {l' : List β} (h : l.map f = l'.map g) :
+    l.length = l'.length := by
+  have := congrArg List.length h
+  simpa using this
+
+/-- **the coordinates through the ear-clipping loop**: on a closed face held in cyclic order in the kernel's `darts`
+    vector, whose darts carry the points of the kernel's `vs` vector, with fresh spare darts: every dart other than the
+    spare darts keeps its coordinates, and the corners of the dart triangles `earTris`, read in the result, are the
+    triangles of the vertex-list computation `earclipTriangles`, in order -/
+theorem earclipLoop_pos (cfg : Cfg Val) (hlaw : cfg.law 0 = avgLaw) (inside : P2 → P2 → P2 → Bool)
+    (hins : ∀ a b c, inside a b c = true → a ≠ c) :
+    ∀ (chunks : List (Nat × Nat)) (darts : List Nat) (vs : List P2) (m m' : Map Val) (d0 : Nat) (rest : List Nat),
+      Inv n u m → m.fc = 0 → darts = d0 :: rest → ClosedFace m d0 rest → darts.map (p2pos m) = vs.map some →
+      vs.length = chunks.length + 3 → (sparesOf chunks).Nodup →
+      (∀ x ∈ sparesOf chunks, Live n u x ∧ x ∉ darts) →
+      (∀ x ∈ sparesOf chunks, ∀ i, i < 3 → m.β i x = 0) → (∀ x ∈ sparesOf chunks, pos m x = none) →
+      EarsNotLast inside chunks.length vs →
+      run (earclipLoop cfg n inside chunks darts vs) m = (.ok (), m') →
+      Inv n u m' ∧ (∀ d, Valid m d → d ∉ sparesOf chunks → pos m' d = pos m d) ∧
+      ∃ tris, earclipTriangles inside chunks.length vs = some tris ∧
+        (earTris inside chunks darts vs).map (triP2 m') = tris.map some := by
+  intro chunks
+  induction chunks with
+  | nil =>
+      intro darts vs m m' d0 rest hi _ hd hc hmap hvs _ _ _ _ _ h
+      unfold earclipLoop at h
+      have h3 : vs.length = 3 := by simpa using hvs
+      simp [h3] at h
+      subst h
+      have hl := map_length_eq hmap
+      rw [h3] at hl
+      match darts, vs, hl, h3, hmap with
+      | [a, b, c], [va, vb, vc], _, _, hmap =>
+          simp only [List.map_cons, List.map_nil, List.cons.injEq, and_true] at hmap
+          refine ⟨hi, fun _ _ _ => rfl, [(va, vb, vc)], rfl, ?_⟩
+          simp only [earTris, List.map_cons, List.map_nil, List.cons.injEq, and_true]
+          exact triP2_of_p2pos hmap.1 hmap.2.1 hmap.2.2
+  | cons c rest' ih =>
+      intro darts vs m m' d0 rest hi hfc hd hc hmap hvs hsnd hsp hfree hnone hears h
+      obtain ⟨nd1, nd2⟩ := c
+      rw [sparesOf_cons] at hsnd hsp hfree hnone
+      simp only [List.nodup_cons, List.mem_cons, not_or] at hsnd
+      obtain ⟨l1, hn1⟩ := hsp nd1 (by simp)
+      obtain ⟨l2, hn2⟩ := hsp nd2 (by simp)
+      have hne : nd1 ≠ nd2 := hsnd.1.1
+      have hlen : darts.length = vs.length := map_length_eq hmap
+      unfold earclipLoop at h
+      simp only [List.length_cons] at hears
+      unfold EarsNotLast at hears
+      cases hf : findEar inside vs with
+      | none => simp [hf] at h
+      | some ear =>
+          simp only [hf] at h
+          rw [hf] at hears
+          simp only at hears
+          obtain ⟨hearlt, hears'⟩ := hears
+          have hmod : (ear + 1) % vs.length = ear + 1 := Nat.mod_eq_of_lt hearlt
+          rw [hmod] at h
+          obtain ⟨A, x, y, B, hsplit, hA⟩ := split_at_ear darts ear (by rw [hlen]; exact hearlt)
+          have hgx : darts.getD ear 0 = x := by rw [hsplit, ← hA]; simp
+          have hgy : darts.getD (ear + 1) 0 = y := by
+            rw [hsplit, ← hA]; simp [List.getD_eq_getElem?_getD]
+          rw [hgx, hgy] at h
+          -- the face read from the ear: x → y → R → x with R = B ++ A
+          have hcx : ClosedFace m x (y :: (B ++ A)) := by
+            cases A with
+            | nil =>
+                simp only [List.nil_append] at hsplit
+                rw [hd] at hsplit
+                simp only [List.cons.injEq] at hsplit
+                obtain ⟨rfl, rfl⟩ := hsplit
+                simpa using hc
+            | cons a0 A' =>
+                rw [hd] at hsplit
+                simp only [List.cons_append, List.cons.injEq] at hsplit
+                obtain ⟨rfl, rfl⟩ := hsplit
+                have := hc.rotate_at
+                simpa using this
+          have hdnd : darts.Nodup := by rw [hd]; exact hc.nodup
+          have hperm : (x :: y :: (B ++ A)).Perm darts := by
+            rw [hsplit]
+            have e1 : x :: y :: (B ++ A) = (x :: y :: B) ++ A := by simp
+            rw [e1]; exact List.perm_append_comm
+          have hmemR : ∀ z, z ∈ B ++ A → z ∈ darts := fun z hz => hperm.subset (by simp [hz])
+          have hxd : x ∈ darts := hperm.subset (by simp)
+          have hyd : y ∈ darts := hperm.subset (by simp)
+          have hvalid : ∀ z, z ∈ darts → Valid m z := by
+            intro z hz; rw [hd] at hz; exact ⟨hc.nz z hz, hc.lt hi.wf hz⟩
+          have hcn := hcx.nodup
+          simp only [List.nodup_cons, List.mem_cons, not_or] at hcn
+          obtain ⟨⟨hxy, hxR⟩, hyR, hRnd⟩ := hcn
+          -- the values, split like the darts
+          rw [hsplit] at hmap
+          obtain ⟨VA, vx, vy, VB, hvsplit, hmA, hmx, hmy, hmB⟩ := split_values hmap
+          have hVA : VA.length = ear := by rw [← map_length_eq hmA]; exact hA
+          -- R is not empty
+          have hRlen : (B ++ A).length = rest'.length + 2 := by
+            have := hperm.length_eq
+            simp only [List.length_cons] at this
+            rw [hlen, hvs] at this
+            simp only [List.length_cons] at this
+            omega
+          cases hR : B ++ A with
+          | nil => rw [hR] at hRlen; simp at hRlen
+          | cons r0 Rt =>
+            rw [hR] at hcx hxR hyR hRnd hmemR
+            have hch := hcx.chain
+            simp only [List.cons_append] at hch
+            obtain ⟨cxy, cyr, hchR⟩ := hch
+            obtain ⟨hchRt, hlast⟩ := B1Chain.last Rt r0 x hchR
+            have hrlm := C14.getLastD_mem Rt r0
+            have hrld := C14.getLastD_not_mem_dropLast Rt r0 hRnd
+            have hx0 : x ≠ 0 := hcx.nz x (by simp)
+            have hrllt : Rt.getLastD r0 < m.n :=
+              hi.wf.toSized.lt_of_β_ne (i := 1) (by omega) (by rw [hlast]; exact hx0)
+            have hb0 : m.β 0 x = Rt.getLastD r0 := by
+              have := hi.wf.inv01 _ hrllt (by rw [hlast]; exact hx0)
+              rw [hlast] at this; exact this
+            have hyrl : y ≠ Rt.getLastD r0 := fun hh => hyR (hh ▸ hrlm)
+            have hxrl : x ≠ Rt.getLastD r0 := fun hh => hxR (hh ▸ hrlm)
+            have hr0d : r0 ∈ darts := hmemR r0 (by simp)
+            have hrld' : Rt.getLastD r0 ∈ darts := hmemR _ hrlm
+            -- the value of r0
+            have hmR : (r0 :: Rt).map (p2pos m) = (VB ++ VA).map some := by
+              rw [← hR, List.map_append, List.map_append, hmA, hmB]
+            cases hVR : VB ++ VA with
+            | nil => rw [hVR] at hmR; simp at hmR
+            | cons vr VRt =>
+            rw [hVR] at hmR
+            simp only [List.map_cons, List.cons.injEq] at hmR
+            have hmr0 : p2pos m r0 = some vr := hmR.1
+            have hg0 : vs.getD ear default = vx := by
+              rw [hvsplit, ← hVA]; simp
+            have hg2 : vs.getD ((ear + 2) % vs.length) default = vr := by
+              rw [hvsplit, ← hVA]; exact getD_ear2 VA VB vx vy vr VRt hVR
+            have hg1 : vs.getD (ear + 1) default = vy := by
+              rw [hvsplit, ← hVA]; simp [List.getD_eq_getElem?_getD]
+            have hpx : pos m x ≠ pos m r0 := by
+              intro hh
+              have ht := (findEar_spec hf).2
+              unfold earTest at ht
+              simp only [Bool.and_eq_true] at ht
+              have := hins _ _ _ ht.1
+              rw [hg0, hg2] at this
+              apply this
+              have e : p2pos m x = p2pos m r0 := by unfold p2pos; rw [hh]
+              rw [hmx, hmr0] at e
+              exact Option.some.inj e
+            -- the seven operations
+            obtain ⟨_, _, k1⟩ := rB_ok hi h
+            obtain ⟨_, _, k2⟩ := rB_ok hi k1
+            rw [hb0, cyr] at k2
+            obtain ⟨_, m1, s1, k3⟩ := run_bind_ok k2
+            obtain ⟨i1, lrl, lx, e1⟩ := oneUnsew2_eff cfg n hi s1
+            rw [hlast] at lx e1
+            obtain ⟨_, m2, s2, k4⟩ := run_bind_ok k3
+            obtain ⟨i2, ly, lr0, e2⟩ := oneUnsew2_eff cfg n i1 s2
+            have hm1y : m1.β 1 y = r0 := by
+              rw [e1, if_neg (fun hh => absurd hh.1 (by decide)), if_neg (fun hh => hyrl hh.2.symm), cyr]
+            rw [hm1y] at lr0 e2
+            obtain ⟨_, m3, s3, k5⟩ := run_bind_ok k4
+            obtain ⟨i3, _, _, e3⟩ := oneSew2_eff cfg n i2 ly l1 s3
+            obtain ⟨_, m4, s4, k6⟩ := run_bind_ok k5
+            obtain ⟨i4, _, _, e4⟩ := oneSew2_eff cfg n i3 l1 lx s4
+            obtain ⟨_, m5, s5, k7⟩ := run_bind_ok k6
+            obtain ⟨i5, _, _, e5⟩ := oneSew2_eff cfg n i4 lrl l2 s5
+            obtain ⟨_, m6, s6, k8⟩ := run_bind_ok k7
+            obtain ⟨i6, _, _, e6⟩ := oneSew2_eff cfg n i5 l2 lr0 s6
+            obtain ⟨_, m7, s7, k9⟩ := run_bind_ok k8
+            obtain ⟨i7, _, _, e7⟩ := twoSew2_eff cfg n i6 l1 l2 hne s7
+            have b1 : ∀ z, m7.β 1 z = if nd2 = z then r0 else if Rt.getLastD r0 = z then nd2 else
+                if nd1 = z then x else if y = z then nd1 else if y = z then 0 else
+                if Rt.getLastD r0 = z then 0 else m.β 1 z := by
+              intro z
+              rw [e7, e6, e5, e4, e3, e2, e1]
+              simp only [show ¬ (0 = 1) by decide, show ¬ (2 = 1) by decide, false_and, if_false, true_and]
+            -- spare darts are not darts of the face
+            have hnd1d : ∀ z, z ∈ darts → nd1 ≠ z := fun z hz hh => hn1 (hh ▸ hz)
+            have hnd2d : ∀ z, z ∈ darts → nd2 ≠ z := fun z hz hh => hn2 (hh ▸ hz)
+            -- the coordinates through the iteration
+            obtain ⟨_, hfc7, pk, p1, p2, bfr⟩ := earIter_pos cfg hlaw hi hfc lx ly lr0 lrl l1 l2 cyr hlast hyrl hne
+              ⟨hnd1d x hxd, hnd1d y hyd, hnd1d r0 hr0d, hnd1d _ hrld'⟩
+              ⟨hnd2d x hxd, hnd2d y hyd, hnd2d r0 hr0d, hnd2d _ hrld'⟩
+              (hfree nd1 (by simp)) (hfree nd2 (by simp)) (hnone nd1 (by simp)) (hnone nd2 (by simp)) hpx
+              s1 s2 s3 s4 s5 s6 s7
+            -- the new face nd2 → R → nd2
+            have hcf : ClosedFace m7 nd2 (r0 :: Rt) := by
+              refine ⟨?_, ?_, ?_⟩
+              · simp only [List.cons_append]
+                refine ⟨by rw [b1, if_pos rfl], ?_⟩
+                refine B1Chain.snoc Rt r0 nd2 (B1Chain.frame Rt r0 hchRt fun z hz => ?_) ?_
+                · have hzR : z ∈ r0 :: Rt := List.dropLast_subset _ hz
+                  have hzd := hmemR z hzR
+                  have hzl : Rt.getLastD r0 ≠ z := fun hh => hrld (hh ▸ hz)
+                  have hzy : y ≠ z := fun hh => hyR (hh ▸ hzR)
+                  rw [b1, if_neg (hnd2d z hzd), if_neg hzl, if_neg (hnd1d z hzd), if_neg hzy, if_neg hzy, if_neg hzl]
+                · rw [b1, if_neg (hnd2d _ hrld'), if_pos rfl]
+              · simp only [List.nodup_cons]
+                exact ⟨fun hh => hn2 (hmemR _ hh), List.nodup_cons.1 hRnd⟩
+              · intro z hz
+                simp only [List.mem_cons] at hz
+                rcases hz with rfl | hz
+                · exact l2.1
+                · exact hcx.nz z (by simp only [List.mem_cons]; right; right; exact hz)
+            rw [← hR] at hcf
+            have hsurg : dartSurgery darts ear nd2 = A ++ nd2 :: B := by
+              rw [hsplit, ← hA]; exact dartSurgery_eq A B x y nd2
+            have hcyc' : ∃ d0' rest'', dartSurgery darts ear nd2 = d0' :: rest'' ∧ ClosedFace m7 d0' rest'' := by
+              rw [hsurg]
+              cases A with
+              | nil => exact ⟨nd2, B, rfl, by simpa using hcf⟩
+              | cons a0 A' =>
+                  refine ⟨a0, A' ++ nd2 :: B, by simp, ?_⟩
+                  exact hcf.rotate_at
+            obtain ⟨d0', rest'', hd', hc'⟩ := hcyc'
+            have hsub' : ∀ z, z ∈ dartSurgery darts ear nd2 → z ∈ darts ∨ z = nd2 := by
+              intro z hz
+              rw [hsurg] at hz
+              rw [hsplit]
+              simp only [List.mem_append, List.mem_cons] at hz ⊢
+              rcases hz with c | c | c
+              · exact Or.inl (Or.inl c)
+              · exact Or.inr c
+              · exact Or.inl (Or.inr (Or.inr (Or.inr c)))
+            -- the erased vertex list and the new invariant
+            have herase : vs.eraseIdx (ear + 1) = VA ++ vx :: VB := by
+              rw [hvsplit, ← hVA, List.eraseIdx_append_of_length_le (by omega)]
+              have e1 : VA.length + 1 - VA.length = 1 := by omega
+              rw [e1]; rfl
+            have hAd : ∀ z, z ∈ A → z ∈ darts := fun z hz => by rw [hsplit]; simp [hz]
+            have hBd : ∀ z, z ∈ B → z ∈ darts := fun z hz => by rw [hsplit]; simp [hz]
+            have pkd : ∀ z, z ∈ darts → p2pos m7 z = p2pos m z := by
+              intro z hz
+              unfold p2pos
+              rw [pk z (hvalid z hz) (hnd1d z hz).symm (hnd2d z hz).symm]
+            have hmap' : (dartSurgery darts ear nd2).map (p2pos m7) = (vs.eraseIdx (ear + 1)).map some := by
+              rw [hsurg, herase]
+              simp only [List.map_append, List.map_cons]
+              rw [← hmA, ← hmB]
+              congr 1
+              · exact List.map_congr_left fun z hz => pkd z (hAd z hz)
+              · congr 1
+                · unfold p2pos; rw [p2]; exact hmx
+                · exact List.map_congr_left fun z hz => pkd z (hBd z hz)
+            have hsepS : ∀ z ∈ sparesOf rest', z ≠ x ∧ z ≠ y ∧ z ≠ r0 ∧ z ≠ Rt.getLastD r0 ∧ z ≠ nd1 ∧ z ≠ nd2 := by
+              intro z hz
+              have hzd := (hsp z (by simp [hz])).2
+              exact ⟨fun hh => hzd (hh ▸ hxd), fun hh => hzd (hh ▸ hyd), fun hh => hzd (hh ▸ hr0d),
+                fun hh => hzd (hh ▸ hrld'), fun hh => hsnd.1.2 (hh ▸ hz), fun hh => hsnd.2.1 (hh ▸ hz)⟩
+            have vsp : ∀ z ∈ sparesOf rest', Valid m z := fun z hz => valid_of_live hi (hsp z (by simp [hz])).1
+            obtain ⟨j1, jkeep, r, hr, hmapT⟩ :=
+              ih (dartSurgery darts ear nd2) (vs.eraseIdx (ear + 1)) m7 m' d0' rest'' i7 hfc7 hd' hc' hmap'
+              (by rw [List.length_eraseIdx, if_pos hearlt, hvs]; simp) hsnd.2.2
+              (fun z hz => ⟨(hsp z (by simp [hz])).1, fun hh => by
+                rcases hsub' z hh with c | c
+                · exact (hsp z (by simp [hz])).2 c
+                · exact hsnd.2.1 (c ▸ hz)⟩)
+              (fun z hz i hi3 => by
+                obtain ⟨a1, a2, a3, a4, a5, a6⟩ := hsepS z hz
+                rw [bfr z a1 a2 a3 a4 a5 a6 i]; exact hfree z (by simp [hz]) i hi3)
+              (fun z hz => by
+                obtain ⟨_, _, _, _, a5, a6⟩ := hsepS z hz
+                rw [pk z (vsp z hz) a5 a6]; exact hnone z (by simp [hz]))
+              hears' k9
+            have hxsp : x ∉ sparesOf rest' := fun hh => (hsp x (by simp [hh])).2 hxd
+            have hysp : y ∉ sparesOf rest' := fun hh => (hsp y (by simp [hh])).2 hyd
+            have keepAll : ∀ d, Valid m d → d ≠ nd1 → d ≠ nd2 → d ∉ sparesOf rest' → pos m' d = pos m d := by
+              intro d hdv h1 h2 h3
+              rw [jkeep d (valid_trans hi i7 hdv) h3, pk d hdv h1 h2]
+            refine ⟨j1, ?_, (vx, vy, vr) :: r, ?_, ?_⟩
+            · intro d hdv hns
+              rw [sparesOf_cons] at hns
+              simp only [List.mem_cons, not_or] at hns
+              exact keepAll d hdv hns.1 hns.2.1 hns.2.2
+            · simp only [List.length_cons]
+              unfold earclipTriangles
+              simp only [hf, hmod, hr, hg0, hg1, hg2]
+            · simp only [earTris, hf, hmod, hgx, hgy, List.map_cons, List.cons.injEq]
+              refine ⟨triP2_of_p2pos ?_ ?_ ?_, hmapT⟩
+              · unfold p2pos
+                rw [keepAll x (hvalid x hxd) (hnd1d x hxd).symm (hnd2d x hxd).symm hxsp]; exact hmx
+              · unfold p2pos
+                rw [keepAll y (hvalid y hyd) (hnd1d y hyd).symm (hnd2d y hyd).symm hysp]; exact hmy
+              · unfold p2pos
+                rw [jkeep nd1 (valid_of_live i7 l1) hsnd.1.2, p1]; exact hmr0
+
+/-! ## the kernels -/
+
+theorem cross_ends_eq (a b : P2) : cross a b a = 0 := by unfold cross; ring
+
+/-- a counter-clockwise (resp. clockwise) triple has different end points -/
+theorem insideCCW_ends_differ (a b c : P2) (h : insideCCW a b c = true) : a ≠ c := by
+  intro hh; subst hh
+  unfold insideCCW at h
+  rw [cross_ends_eq] at h
+  simp at h
+
+theorem insideCW_ends_differ (a b c : P2) (h : insideCW a b c = true) : a ≠ c := by
+  intro hh; subst hh
+  unfold insideCW at h
+  rw [cross_ends_eq] at h
+  simp at h
+
+/-- **C13, the triangles of the map carry the triangles of the vertex list (`earclip_cell_*`)**.  On a closed face
+    `face :: rest` of a well-formed map, with spare darts that are in use, pairwise distinct, outside the face and
+    FRESH (free, no vertex value under them), for an orientation test that rejects triples with equal end points (both
+    `insideCCW` and `insideCW` do: `insideCCW_ends_differ`, `insideCW_ends_differ`) and ears never found at the last index
+    (`EarsNotLast`, see C13c), every successful run
+    * read the vertex list `vals` of the face, on which the vertex-list computation `earclipTriangles` (the object of
+      `C13_earclip_area_sum`, `C13_earclip_ears_oriented`) yields `tris`;
+    * left the `n - 2` dart triangles `earTris …`, each a closed β1-cycle of the result (`TriFace`), whose corners, read
+      through the vertex identifiers of the RESULT map, are `tris`, in order;
+    * left the coordinates of every dart other than the spare darts unchanged.
+    Needs the vertex merge law to be the average (`Vertex2`) and no injected failure (`fc = 0`). -/
+theorem C13_earclip_triangles_carry_list_coordinates (cfg : Cfg Val) (hlaw : cfg.law 0 = avgLaw)
+    (inside : P2 → P2 → P2 → Bool) (hins : ∀ a b c, inside a b c = true → a ≠ c) (m m' : Map Val)
+    (face : Nat) (nds rest : List Nat) (hwf : WF 3 m) (hfc : m.fc = 0) (hc : ClosedFace m face rest)
+    (hsp : ∀ d ∈ nds, C01.InUse m d ∧ d ∉ face :: rest) (hnd : nds.Nodup)
+    (hfresh : ∀ d ∈ nds, (∀ i, i < 3 → m.β i d = 0) ∧ m.att 0 d = none)
+    (hears : ∀ vals, run (faceVertices m.n (face :: rest)) m = (.ok vals, m) →
+      EarsNotLast inside (chunks2 nds).length (vals.map Val.p2))
+    (h : run (earclipCell cfg m.n inside face nds) m = (.ok (), m')) :
+    ∃ (vals : List Val) (tris : List Tri),
+      run (faceVertices m.n (face :: rest)) m = (.ok vals, m) ∧
+      (chunks2 nds).length + 3 = (face :: rest).length ∧
+      earclipTriangles inside (chunks2 nds).length (vals.map Val.p2) = some tris ∧
+      WF 3 m' ∧
+      (∀ t ∈ earTris inside (chunks2 nds) (face :: rest) (vals.map Val.p2), TriFace m' t) ∧
+      (earTris inside (chunks2 nds) (face :: rest) (vals.map Val.p2)).length + 2 = (face :: rest).length ∧
+      (earTris inside (chunks2 nds) (face :: rest) (vals.map Val.p2)).map (triP2 m') = tris.map some ∧
+      (∀ d, d ≠ 0 → d < m.n → d ∉ nds → pos m' d = pos m d) := by
+  obtain ⟨vals, hv, wf', tf, tl, _⟩ := C13_earclip_structure cfg inside m m' face nds rest hwf hc
+    (fun d hd => ⟨(hsp d hd).1, by
+      unfold Map.isFree
+      simp only [List.all_eq_true, List.mem_range, decide_eq_true_eq]
+      exact (hfresh d hd).1, (hsp d hd).2⟩) hnd hears h
+  unfold earclipCell at h
+  obtain ⟨darts, h1, h3⟩ := ro_bind_ok (readOnly_orbit2 m.n .faceLinear face) h
+  have hdarts : darts = face :: rest := by
+    have := closedFace_orbit_eq hwf hc
+    rw [h1] at this
+    simpa using this
+  rw [hdarts] at h3
+  obtain ⟨vals2, m2, h2, h4⟩ := run_bind_ok h3
+  obtain ⟨_, hm2⟩ := faceVertices_length m.n _ _ _ _ h2
+  rw [hm2] at h2 h4
+  have hve : vals2 = vals := by
+    rw [hv] at h2
+    simp only [Prod.mk.injEq, Out.ok.injEq, and_true] at h2
+    exact h2.symm
+  rw [hve] at h4
+  obtain ⟨hvl, _⟩ := faceVertices_length m.n _ _ _ _ hv
+  cases hcr : checkRequirements (rest.length + 1) nds.length with
+  | error e => simp [hcr] at h4
+  | ok v =>
+      have hcr' : checkRequirements (face :: rest).length nds.length = .ok v := hcr
+      simp only [hcr'] at h4
+      have hreq := (C13_check_requirements_ok_iff _ _).1 hcr
+      have hk := chunks2_length nds
+      have hsub := sparesOf_chunks2_sublist nds
+      have hcl : (chunks2 nds).length + 3 = (face :: rest).length := by simp only [List.length_cons]; omega
+      have hi : Inv m.n m.u m := Inv.of_wf hwf
+      have hvals := faceVertices_pos hwf _ _ _ (fun d hd => ⟨hc.nz d hd, hc.lt hwf hd⟩) hv
+      have hmap : (face :: rest).map (p2pos m) = (vals.map Val.p2).map some := by
+        have e : (face :: rest).map (p2pos m) = ((face :: rest).map (pos m)).map (Option.map Val.p2) := by
+          rw [List.map_map]; rfl
+        rw [e, ← hvals, List.map_map, List.map_map]
+        rfl
+      obtain ⟨_, keep, tris, htris, hmapT⟩ := earclipLoop_pos (n := m.n) (u := m.u) cfg hlaw inside hins (chunks2 nds)
+        (face :: rest) (vals.map Val.p2) m m' face rest hi hfc rfl hc hmap
+        (by rw [List.length_map, hvl]; exact hcl.symm) (hnd.sublist hsub)
+        (fun x hx => ⟨(hsp x (hsub.subset hx)).1, (hsp x (hsub.subset hx)).2⟩)
+        (fun x hx => (hfresh x (hsub.subset hx)).1)
+        (fun x hx => by
+          have hx' := hsub.subset hx
+          rw [pos_free hwf (valid_of_live hi (hsp x hx').1) (hfresh x hx').1]
+          exact (hfresh x hx').2)
+        (hears vals hv) h4
+      refine ⟨vals, tris, hv, hcl, htris, wf', tf, ?_, hmapT,
+        fun d hd0 hdlt hdn => keep d ⟨hd0, hdlt⟩ (fun hh => hdn (hsub.subset hh))⟩
+      rw [tl]
+      simp only [List.length_cons] at hcl ⊢
+      omega
+
+/-- **C13, the area of the polygon is conserved IN THE MAP (`earclip_cell_*`)**: the cross products of the dart triangles
+    of the result, corners read through the result's vertex identifiers, add up to twice the signed area of the
+    polygon read before the call -/
+theorem C13_earclip_area_conserved_in_map (cfg : Cfg Val) (hlaw : cfg.law 0 = avgLaw)
+    (inside : P2 → P2 → P2 → Bool) (hins : ∀ a b c, inside a b c = true → a ≠ c) (m m' : Map Val)
+    (face : Nat) (nds rest : List Nat) (hwf : WF 3 m) (hfc : m.fc = 0) (hc : ClosedFace m face rest)
+    (hsp : ∀ d ∈ nds, C01.InUse m d ∧ d ∉ face :: rest) (hnd : nds.Nodup)
+    (hfresh : ∀ d ∈ nds, (∀ i, i < 3 → m.β i d = 0) ∧ m.att 0 d = none)
+    (hears : ∀ vals, run (faceVertices m.n (face :: rest)) m = (.ok vals, m) →
+      EarsNotLast inside (chunks2 nds).length (vals.map Val.p2))
+    (h : run (earclipCell cfg m.n inside face nds) m = (.ok (), m')) :
+    ∃ vals : List Val,
+      run (faceVertices m.n (face :: rest)) m = (.ok vals, m) ∧
+      (∀ t ∈ earTris inside (chunks2 nds) (face :: rest) (vals.map Val.p2), TriFace m' t) ∧
+      (mapTris m' (earTris inside (chunks2 nds) (face :: rest) (vals.map Val.p2))).length + 2 = (face :: rest).length ∧
+      ((mapTris m' (earTris inside (chunks2 nds) (face :: rest) (vals.map Val.p2))).map tri2).sum
+        = area2 (vals.map Val.p2) := by
+  obtain ⟨vals, tris, a1, a2, a3, _, a5, a6, a7, _⟩ :=
+    C13_earclip_triangles_carry_list_coordinates cfg hlaw inside hins m m' face nds rest hwf hfc hc hsp hnd hfresh hears h
+  have e : mapTris m' (earTris inside (chunks2 nds) (face :: rest) (vals.map Val.p2)) = tris :=
+    filterMap_of_map_some _ _ _ a7
+  have hl := congrArg List.length a7
+  simp only [List.length_map] at hl
+  obtain ⟨hvl, _⟩ := faceVertices_length m.n _ _ _ _ a1
+  refine ⟨vals, a1, a5, by rw [e, ← hl]; exact a6, ?_⟩
+  rw [e]
+  exact C13_earclip_area_sum inside _ _ tris (by rw [List.length_map, hvl]; exact a2.symm) a3
+
+/-- **C13, the orientation of the triangles IN THE MAP (`earclip_cell_*`)**: the triangles of the result, corners read
+    through the result's vertex identifiers, are `ears ++ [last]` where every clipped ear passes the announced orientation
+    test (`inside`: strictly counter-clockwise for `_countercw`, strictly clockwise for `_cw`).  The LAST triangle — the
+    three vertices left when the spare darts are used up — is not tested by the code: all that is known is its doubled
+    area, the polygon's minus the ears'; its orientation follows on a simple polygon of the announced orientation
+    (not proved). -/
+theorem C13_earclip_orientation_in_map (cfg : Cfg Val) (hlaw : cfg.law 0 = avgLaw)
+    (inside : P2 → P2 → P2 → Bool) (hins : ∀ a b c, inside a b c = true → a ≠ c) (m m' : Map Val)
+    (face : Nat) (nds rest : List Nat) (hwf : WF 3 m) (hfc : m.fc = 0) (hc : ClosedFace m face rest)
+    (hsp : ∀ d ∈ nds, C01.InUse m d ∧ d ∉ face :: rest) (hnd : nds.Nodup)
+    (hfresh : ∀ d ∈ nds, (∀ i, i < 3 → m.β i d = 0) ∧ m.att 0 d = none)
+    (hears : ∀ vals, run (faceVertices m.n (face :: rest)) m = (.ok vals, m) →
+      EarsNotLast inside (chunks2 nds).length (vals.map Val.p2))
+    (h : run (earclipCell cfg m.n inside face nds) m = (.ok (), m')) :
+    ∃ (vals : List Val) (ears : List Tri) (last : Tri),
+      run (faceVertices m.n (face :: rest)) m = (.ok vals, m) ∧
+      (∀ t ∈ earTris inside (chunks2 nds) (face :: rest) (vals.map Val.p2), TriFace m' t) ∧
+      mapTris m' (earTris inside (chunks2 nds) (face :: rest) (vals.map Val.p2)) = ears ++ [last] ∧
+      ears.length = (chunks2 nds).length ∧
+      (∀ T ∈ ears, inside T.1 T.2.1 T.2.2 = true) ∧
+      tri2 last = area2 (vals.map Val.p2) - (ears.map tri2).sum := by
+  obtain ⟨vals, tris, a1, a2, a3, _, a5, a6, a7, _⟩ :=
+    C13_earclip_triangles_carry_list_coordinates cfg hlaw inside hins m m' face nds rest hwf hfc hc hsp hnd hfresh hears h
+  have e : mapTris m' (earTris inside (chunks2 nds) (face :: rest) (vals.map Val.p2)) = tris :=
+    filterMap_of_map_some _ _ _ a7
+  have hl := congrArg List.length a7
+  simp only [List.length_map] at hl
+  obtain ⟨hvl, _⟩ := faceVertices_length m.n _ _ _ _ a1
+  have hor := C13_earclip_ears_oriented inside _ _ tris a3
+  have hsum := C13_earclip_area_sum inside _ _ tris (by rw [List.length_map, hvl]; exact a2.symm) a3
+  have hne : tris ≠ [] := by
+    intro h0; rw [h0] at hl; simp only [List.length_nil] at hl
+    simp only [List.length_cons] at a6 a2; omega
+  refine ⟨vals, tris.dropLast, tris.getLast hne, a1, a5, by rw [e, List.dropLast_concat_getLast], ?_, hor, ?_⟩
+  · rw [List.length_dropLast, ← hl]
+    simp only [List.length_cons] at a6 a2
+    omega
+  · have : ((tris.dropLast ++ [tris.getLast hne]).map tri2).sum = area2 (vals.map Val.p2) := by
+      rw [List.dropLast_concat_getLast]; exact hsum
+    simp only [List.map_append, List.sum_append, List.map_cons, List.map_nil, List.sum_cons, List.sum_nil] at this
+    linarith
+
+/-- **C13, untouched coordinates (`earclip_cell_*`)**: every dart other than the spare darts reads the same coordinates
+    through its vertex identifier after the call as before -/
+theorem C13_earclip_old_vertices_keep_coordinates (cfg : Cfg Val) (hlaw : cfg.law 0 = avgLaw)
+    (inside : P2 → P2 → P2 → Bool) (hins : ∀ a b c, inside a b c = true → a ≠ c) (m m' : Map Val)
+    (face : Nat) (nds rest : List Nat) (hwf : WF 3 m) (hfc : m.fc = 0) (hc : ClosedFace m face rest)
+    (hsp : ∀ d ∈ nds, C01.InUse m d ∧ d ∉ face :: rest) (hnd : nds.Nodup)
+    (hfresh : ∀ d ∈ nds, (∀ i, i < 3 → m.β i d = 0) ∧ m.att 0 d = none)
+    (hears : ∀ vals, run (faceVertices m.n (face :: rest)) m = (.ok vals, m) →
+      EarsNotLast inside (chunks2 nds).length (vals.map Val.p2))
+    (h : run (earclipCell cfg m.n inside face nds) m = (.ok (), m')) :
+    ∀ d, d ≠ 0 → d < m.n → d ∉ nds → pos m' d = pos m d := by
+  obtain ⟨_, _, _, _, _, _, _, _, _, keep⟩ :=
+    C13_earclip_triangles_carry_list_coordinates cfg hlaw inside hins m m' face nds rest hwf hfc hc hsp hnd hfresh hears h
+  exact keep
+
+/-- **the two public kernels**: after `earclip_cell_countercw` every clipped ear is strictly counter-clockwise IN THE MAP;
+    the last triangle has the remaining doubled area -/
+theorem C13_earclip_ccw_orientation_in_map (cfg : Cfg Val) (hlaw : cfg.law 0 = avgLaw) (m m' : Map Val)
+    (face : Nat) (nds rest : List Nat) (hwf : WF 3 m) (hfc : m.fc = 0) (hc : ClosedFace m face rest)
+    (hsp : ∀ d ∈ nds, C01.InUse m d ∧ d ∉ face :: rest) (hnd : nds.Nodup)
+    (hfresh : ∀ d ∈ nds, (∀ i, i < 3 → m.β i d = 0) ∧ m.att 0 d = none)
+    (hears : ∀ vals, run (faceVertices m.n (face :: rest)) m = (.ok vals, m) →
+      EarsNotLast insideCCW (chunks2 nds).length (vals.map Val.p2))
+    (h : run (earclipCellCCW cfg m.n face nds) m = (.ok (), m')) :
+    ∃ (vals : List Val) (ears : List Tri) (last : Tri),
+      run (faceVertices m.n (face :: rest)) m = (.ok vals, m) ∧
+      mapTris m' (earTris insideCCW (chunks2 nds) (face :: rest) (vals.map Val.p2)) = ears ++ [last] ∧
+      (∀ T ∈ ears, 0 < tri2 T) ∧ tri2 last = area2 (vals.map Val.p2) - (ears.map tri2).sum := by
+  obtain ⟨vals, ears, last, a1, _, a3, _, a5, a6⟩ := C13_earclip_orientation_in_map cfg hlaw insideCCW
+    insideCCW_ends_differ m m' face nds rest hwf hfc hc hsp hnd hfresh hears h
+  refine ⟨vals, ears, last, a1, a3, fun T hT => ?_, a6⟩
+  have := a5 T hT
+  unfold insideCCW at this
+  simpa [tri2] using this
+
+/-- after `earclip_cell_cw` every clipped ear is strictly clockwise IN THE MAP -/
+theorem C13_earclip_cw_orientation_in_map (cfg : Cfg Val) (hlaw : cfg.law 0 = avgLaw) (m m' : Map Val)
+    (face : Nat) (nds rest : List Nat) (hwf : WF 3 m) (hfc : m.fc = 0) (hc : ClosedFace m face rest)
+    (hsp : ∀ d ∈ nds, C01.InUse m d ∧ d ∉ face :: rest) (hnd : nds.Nodup)
+    (hfresh : ∀ d ∈ nds, (∀ i, i < 3 → m.β i d = 0) ∧ m.att 0 d = none)
+    (hears : ∀ vals, run (faceVertices m.n (face :: rest)) m = (.ok vals, m) →
+      EarsNotLast insideCW (chunks2 nds).length (vals.map Val.p2))
+    (h : run (earclipCellCW cfg m.n face nds) m = (.ok (), m')) :
+    ∃ (vals : List Val) (ears : List Tri) (last : Tri),
+      run (faceVertices m.n (face :: rest)) m = (.ok vals, m) ∧
+      mapTris m' (earTris insideCW (chunks2 nds) (face :: rest) (vals.map Val.p2)) = ears ++ [last] ∧
+      (∀ T ∈ ears, tri2 T < 0) ∧ tri2 last = area2 (vals.map Val.p2) - (ears.map tri2).sum := by
+  obtain ⟨vals, ears, last, a1, _, a3, _, a5, a6⟩ := C13_earclip_orientation_in_map cfg hlaw insideCW
+    insideCW_ends_differ m m' face nds rest hwf hfc hc hsp hnd hfresh hears h
+  refine ⟨vals, ears, last, a1, a3, fun T hT => ?_, a6⟩
+  have := a5 T hT
+  unfold insideCW at this
+  simpa [tri2] using this
+
+/-! ## non-vacuity: the pentagon of `d7Map` (counter-clockwise) and its mirror image (clockwise) -/
+
+theorem d7_ears : ∀ vals, run (faceVertices d7Map.n [1, 2, 3, 4, 5]) d7Map = (.ok vals, d7Map) →
+    EarsNotLast insideCCW (chunks2 [6, 7, 8, 9]).length (vals.map Val.p2) := by
+  intro vals hv
+  rw [d7_vals] at hv
+  simp only [Prod.mk.injEq, Out.ok.injEq, and_true] at hv
+  subst hv
+  decide +kernel
+
+/-- the hypotheses hold on the pentagon; the three dart triangles of the result carry the three triangles of the list -/
+example : ∃ (vals : List Val) (tris : List Tri),
+    run (faceVertices d7Map.n [1, 2, 3, 4, 5]) d7Map = (.ok vals, d7Map) ∧
+    earclipTriangles insideCCW (chunks2 [6, 7, 8, 9]).length (vals.map Val.p2) = some tris ∧
+    (earTris insideCCW (chunks2 [6, 7, 8, 9]) [1, 2, 3, 4, 5] (vals.map Val.p2)).map
+      (triP2 (run (earclipCell (stdCfg 3 0) d7Map.n insideCCW 1 [6, 7, 8, 9]) d7Map).2) = tris.map some := by
+  obtain ⟨vals, tris, a1, _, a3, _, _, _, a7, _⟩ :=
+    C13_earclip_triangles_carry_list_coordinates (stdCfg 3 0) rfl insideCCW insideCCW_ends_differ d7Map _ 1 [6, 7, 8, 9]
+      [2, 3, 4, 5] d7_wf rfl d7_closed d7_spares (by decide) d7_fresh d7_ears (ok_of_fst (by decide +kernel))
+  exact ⟨vals, tris, a1, a3, a7⟩
+
+/-- concretely: (2,3,6), (1,7,8), (9,4,5) carry ((2,1),(4,0),(4,4)), ((0,0),(2,1),(4,4)), ((0,0),(4,4),(0,4)) -/
+example : [(2, 3, 6), (1, 7, 8), (9, 4, 5)].map
+      (triP2 (run (earclipCell (stdCfg 3 0) d7Map.n insideCCW 1 [6, 7, 8, 9]) d7Map).2)
+    = [some (⟨2, 1⟩, ⟨4, 0⟩, ⟨4, 4⟩), some (⟨0, 0⟩, ⟨2, 1⟩, ⟨4, 4⟩), some (⟨0, 0⟩, ⟨4, 4⟩, ⟨0, 4⟩)] ∧
+    earclipTriangles insideCCW 2 d7Pentagon
+      = some [(⟨2, 1⟩, ⟨4, 0⟩, ⟨4, 4⟩), (⟨0, 0⟩, ⟨2, 1⟩, ⟨4, 4⟩), (⟨0, 0⟩, ⟨4, 4⟩, ⟨0, 4⟩)] := by decide +kernel
+
+/-- area: 8 + 4 + 16 = 28, read in the result map -/
+example : ∃ vals : List Val, run (faceVertices d7Map.n [1, 2, 3, 4, 5]) d7Map = (.ok vals, d7Map) ∧
+    ((mapTris (run (earclipCell (stdCfg 3 0) d7Map.n insideCCW 1 [6, 7, 8, 9]) d7Map).2
+      (earTris insideCCW (chunks2 [6, 7, 8, 9]) [1, 2, 3, 4, 5] (vals.map Val.p2))).map tri2).sum
+      = area2 (vals.map Val.p2) := by
+  obtain ⟨vals, a1, _, _, a4⟩ :=
+    C13_earclip_area_conserved_in_map (stdCfg 3 0) rfl insideCCW insideCCW_ends_differ d7Map _ 1 [6, 7, 8, 9]
+      [2, 3, 4, 5] d7_wf rfl d7_closed d7_spares (by decide) d7_fresh d7_ears (ok_of_fst (by decide +kernel))
+  exact ⟨vals, a1, a4⟩
+
+example : (mapTris (run (earclipCell (stdCfg 3 0) d7Map.n insideCCW 1 [6, 7, 8, 9]) d7Map).2
+    [(2, 3, 6), (1, 7, 8), (9, 4, 5)]).map tri2 = [8, 4, 16] := by decide +kernel
+
+/-- orientation: the two clipped ears pass the test in the map; the last triangle has the rest of the area -/
+example : ∃ (vals : List Val) (ears : List Tri) (last : Tri),
+    run (faceVertices d7Map.n [1, 2, 3, 4, 5]) d7Map = (.ok vals, d7Map) ∧
+    mapTris (run (earclipCell (stdCfg 3 0) d7Map.n insideCCW 1 [6, 7, 8, 9]) d7Map).2
+      (earTris insideCCW (chunks2 [6, 7, 8, 9]) [1, 2, 3, 4, 5] (vals.map Val.p2)) = ears ++ [last] ∧
+    ears.length = 2 ∧ (∀ T ∈ ears, insideCCW T.1 T.2.1 T.2.2 = true) ∧
+    tri2 last = area2 (vals.map Val.p2) - (ears.map tri2).sum := by
+  obtain ⟨vals, ears, last, a1, _, a3, a4, a5, a6⟩ :=
+    C13_earclip_orientation_in_map (stdCfg 3 0) rfl insideCCW insideCCW_ends_differ d7Map _ 1 [6, 7, 8, 9]
+      [2, 3, 4, 5] d7_wf rfl d7_closed d7_spares (by decide) d7_fresh d7_ears (ok_of_fst (by decide +kernel))
+  exact ⟨vals, ears, last, a1, a3, a4, a5, a6⟩
+
+example : ∃ (vals : List Val) (ears : List Tri) (last : Tri),
+    run (faceVertices d7Map.n [1, 2, 3, 4, 5]) d7Map = (.ok vals, d7Map) ∧
+    mapTris (run (earclipCellCCW (stdCfg 3 0) d7Map.n 1 [6, 7, 8, 9]) d7Map).2
+      (earTris insideCCW (chunks2 [6, 7, 8, 9]) [1, 2, 3, 4, 5] (vals.map Val.p2)) = ears ++ [last] ∧
+    (∀ T ∈ ears, 0 < tri2 T) ∧ tri2 last = area2 (vals.map Val.p2) - (ears.map tri2).sum :=
+  C13_earclip_ccw_orientation_in_map (stdCfg 3 0) rfl d7Map _ 1 [6, 7, 8, 9] [2, 3, 4, 5] d7_wf rfl d7_closed
+    d7_spares (by decide) d7_fresh d7_ears (ok_of_fst (by decide +kernel))
+
+/-- untouched coordinates -/
+example : ∀ d, d ≠ 0 → d < d7Map.n → d ∉ [6, 7, 8, 9] →
+    pos (run (earclipCell (stdCfg 3 0) d7Map.n insideCCW 1 [6, 7, 8, 9]) d7Map).2 d = pos d7Map d :=
+  C13_earclip_old_vertices_keep_coordinates (stdCfg 3 0) rfl insideCCW insideCCW_ends_differ d7Map _ 1 [6, 7, 8, 9]
+    [2, 3, 4, 5] d7_wf rfl d7_closed d7_spares (by decide) d7_fresh d7_ears (ok_of_fst (by decide +kernel))
+
+example : [1, 2, 3, 4, 5].map (pos (run (earclipCell (stdCfg 3 0) d7Map.n insideCCW 1 [6, 7, 8, 9]) d7Map).2)
+    = [some (.pt 0 0 0), some (.pt 2 1 0), some (.pt 4 0 0), some (.pt 4 4 0), some (.pt 0 4 0)] := by decide +kernel
+
+/-- the mirror image of the pentagon, clockwise, for `earclip_cell_cw` -/
+def d7MapCW : Map Val :=
+  { d7Map with
+    a := #[#[none, some (.pt 0 0 0), some (.pt 0 4 0), some (.pt 4 4 0), some (.pt 4 0 0), some (.pt 2 1 0),
+             none, none, none, none],
+           Array.replicate 11 none, Array.replicate 11 none, Array.replicate 11 none,
+           Array.replicate 11 none, Array.replicate 11 none] }
+
+theorem d7cw_vals : run (faceVertices d7MapCW.n [1, 2, 3, 4, 5]) d7MapCW
+    = (.ok [.pt 0 0 0, .pt 0 4 0, .pt 4 4 0, .pt 4 0 0, .pt 2 1 0], d7MapCW) := by
+  have h1 : (run (faceVertices d7MapCW.n [1, 2, 3, 4, 5]) d7MapCW).1
+      = .ok [.pt 0 0 0, .pt 0 4 0, .pt 4 4 0, .pt 4 0 0, .pt 2 1 0] := by decide +kernel
+  have h2 : run (faceVertices d7MapCW.n [1, 2, 3, 4, 5]) d7MapCW
+      = (.ok [.pt 0 0 0, .pt 0 4 0, .pt 4 4 0, .pt 4 0 0, .pt 2 1 0],
+          (run (faceVertices d7MapCW.n [1, 2, 3, 4, 5]) d7MapCW).2) := Prod.ext h1 rfl
+  obtain ⟨_, e⟩ := faceVertices_length _ _ _ _ _ h2
+  rw [e] at h2; exact h2
+
+example : ∃ (vals : List Val) (ears : List Tri) (last : Tri),
+    run (faceVertices d7MapCW.n [1, 2, 3, 4, 5]) d7MapCW = (.ok vals, d7MapCW) ∧
+    mapTris (run (earclipCellCW (stdCfg 3 0) d7MapCW.n 1 [6, 7, 8, 9]) d7MapCW).2
+      (earTris insideCW (chunks2 [6, 7, 8, 9]) [1, 2, 3, 4, 5] (vals.map Val.p2)) = ears ++ [last] ∧
+    (∀ T ∈ ears, tri2 T < 0) ∧ tri2 last = area2 (vals.map Val.p2) - (ears.map tri2).sum :=
+  C13_earclip_cw_orientation_in_map (stdCfg 3 0) rfl d7MapCW _ 1 [6, 7, 8, 9] [2, 3, 4, 5] (by decide +kernel) rfl
+    ⟨by decide +kernel, by decide, by decide⟩ (by decide +kernel) (by decide) (by decide +kernel)
+    (by
+      intro vals hv
+      rw [d7cw_vals] at hv
+      simp only [Prod.mk.injEq, Out.ok.injEq, and_true] at hv
+      subst hv
+      decide +kernel)
+    (ok_of_fst (by decide +kernel))
+
+example : (mapTris (run (earclipCellCW (stdCfg 3 0) d7MapCW.n 1 [6, 7, 8, 9]) d7MapCW).2
+    [(1, 2, 6), (3, 4, 8), (7, 9, 5)]).map tri2 = [-16, -8, -4] := by decide +kernel
+
+/-! ## the clockwise twin of `C13_fan_accepts_convex_ccw` -/
+
+/-- **C13, fan on clockwise convex polygons**: if every triangle `(v0, v_i, v_{i+1})`, `1 ≤ i ≤ n-2`, is negatively
+    oriented with cross product `≤ -ε` (in particular on a strictly convex CLOCKWISE polygon with coordinates on a lattice
+    coarser than `√ε`), the star search returns apex 0: the kernel does not answer `NonFannable` (the star test compares
+    signs with the first examined side, it does not prefer an orientation) -/
+theorem C13_fan_accepts_convex_cw (vs : List P2) (hn : 3 ≤ vs.length)
+    (hneg : ∀ i, i < vs.length → i ≠ 0 → (i + 1) % vs.length ≠ 0 → sideCross vs 0 i ≤ -eps) :
+    fanStar vs = some (some 0) := by
+  have hsig : ∀ i, i ∈ fanSegs vs.length 0 → sideSignum vs 0 i = -1 ∧ ¬ ratAbs (sideCross vs 0 i) < eps := by
+    intro i hi
+    obtain ⟨h1, h2, h3⟩ := mem_fanSegs.1 hi
+    have := hneg i h1 h2 h3
+    have hp : sideCross vs 0 i < 0 := by linarith [eps_pos]
+    constructor
+    · unfold sideSignum signumF; rw [if_neg (by linarith), if_pos hp]
+    · unfold ratAbs; rw [if_pos hp]; linarith
+  have h1mem : 1 ∈ fanSegs vs.length 0 :=
+    mem_fanSegs.2 ⟨by omega, by omega, by rw [Nat.mod_eq_of_lt (by omega)]; omega⟩
+  have htest : fanTest vs 0 = some true := by
+    unfold fanTest
+    simp only
+    cases hs : fanSegs vs.length 0 with
+    | nil => rw [hs] at h1mem; simp at h1mem
+    | cons i0 rest =>
+        simp only [List.map_cons, Option.some.injEq, List.all_eq_true, List.mem_map, Bool.and_eq_true,
+          decide_eq_true_eq, Bool.not_eq_true', decide_eq_false_iff_not, forall_exists_index, and_imp]
+        intro cz i hi hcz
+        subst hcz
+        obtain ⟨s1, s2⟩ := hsig i (by rw [hs]; simp [hi])
+        obtain ⟨t1, _⟩ := hsig i0 (by rw [hs]; simp)
+        unfold sideSignum sideCross at s1 t1
+        unfold sideCross at s2
+        exact ⟨by rw [s1, t1], s2⟩
+  unfold fanStar
+  have : List.range vs.length = 0 :: List.range' 1 (vs.length - 1) := by
+    rw [List.range_eq_range']
+    have : vs.length = (vs.length - 1) + 1 := by omega
+    rw [this, List.range'_succ]; simp
+  rw [this]
+  unfold fanStarFrom
+  rw [htest]
+
+/-- a clockwise square and a clockwise convex pentagon -/
+example : fanStar [⟨0, 0⟩, ⟨0, 2⟩, ⟨2, 2⟩, ⟨2, 0⟩] = some (some 0) :=
+  C13_fan_accepts_convex_cw _ (by decide) (by decide +kernel)
+
+example : fanStar [⟨0, 0⟩, ⟨-1, 2⟩, ⟨1, 4⟩, ⟨3, 3⟩, ⟨3, 1⟩] = some (some 0) :=
+  C13_fan_accepts_convex_cw _ (by decide) (by decide +kernel)
 
 end HC.C13
